@@ -1966,7 +1966,9 @@ func (sa *Application) removeAllocationInternal(allocationKey string, releaseTyp
 		if resources.IsZero(sa.allocatedPlaceholder) {
 			sa.clearPlaceholderTimer()
 			sa.hasPlaceholderAlloc = false
-			if (sa.IsCompleting() && sa.stateTimer == nil) || sa.IsFailing() || sa.IsResuming() || sa.hasZeroAllocations() {
+			// the confirmation of a replacement is followed by its real allocation: the application is not idle
+			replacing := releaseType == si.TerminationType_PLACEHOLDER_REPLACED && alloc.HasRelease()
+			if (sa.IsCompleting() && sa.stateTimer == nil && !replacing) || sa.IsFailing() || sa.IsResuming() || (sa.hasZeroAllocations() && !replacing) {
 				removeApp = true
 				event = CompleteApplication
 				if sa.IsFailing() {
